@@ -181,6 +181,79 @@ def gen_binary(rng):
     return _assemble(wb, sb, pb, ms, 2, ws, ops)
 
 
+def gen_encode_only(rng, max_syms=200):
+    """C06 / C12 / C18: encode a message on an empty coder, exporting words and sizes on the way.
+    Low-information sequences (p = 2^P - 1 repeated, alternating extremes) are over-weighted."""
+    wb, sb, pb = rng.choice(ANS_MENU)
+    ms = _models(rng, wb, sb, pb)
+    ops = [7, 4]
+    n = rng.choice([0, 1, 2, rng.randint(0, max_syms)])
+    style = rng.random()
+    for j in range(n):
+        m = rng.randrange(len(ms))
+        t = ms[m][1]
+        if style < 0.3:
+            e = max(t, key=lambda x: x[2])                  # most probable symbol
+        elif style < 0.4:
+            e = min(t, key=lambda x: x[2])                  # least probable symbol
+        elif style < 0.5:
+            e = (max if j % 2 else min)(t, key=lambda x: x[2])
+        else:
+            e = rng.choice(t)
+        ops += [1, m, e[0]]
+        if rng.random() < 0.1:
+            ops += [7, 4]
+    ops += [7, 4, 5]
+    return _assemble(wb, sb, pb, ms, 0, [], ops)
+
+
+def gen_twin(rng, max_ops=80):
+    """C08: identical encode/decode history on a coder and on its twin; only the first coder is
+    inspected (views, raw-binary views, iterators, clones, size queries) at random points."""
+    wb, sb, pb, ms, kind, ws = _header(rng)
+    ops = [16]
+    for _ in range(rng.randint(1, max_ops)):
+        r = rng.random()
+        m = rng.randrange(len(ms))
+        t = ms[m][1]
+        if r < 0.35:
+            ops += [1, m, _in_sym(rng, t) if rng.random() < 0.95 else _out_sym(rng, t)]
+        elif r < 0.5:
+            ops += [2, m]
+        else:
+            k = rng.choice([1, 1, 2, 5])
+            for _ in range(k):
+                ops += [rng.choice([4, 5, 5, 6, 6, 7, 8, 12, 14])]
+    ops += [4, 5, 4]
+    return _assemble(wb, sb, pb, ms, kind, ws, ops)
+
+
+def gen_impossible(rng, max_ops=60):
+    """C09: out-of-support symbols anywhere in a stack-disciplined history; raw parts before and
+    after each failed encode."""
+    wb, sb, pb, ms, kind, ws = _header(rng)
+    ops = [4]
+    pending = []
+    for _ in range(rng.randint(1, max_ops)):
+        r = rng.random()
+        m = rng.randrange(len(ms))
+        t = ms[m][1]
+        if r < 0.25:
+            ops += [12, 1, m, _out_sym(rng, t), 12]
+        elif r < 0.65 or not pending:
+            s = _in_sym(rng, t)
+            ops += [1, m, s]
+            pending.append((m, s))
+        else:
+            pm, s = pending.pop()
+            ops += [2, pm]
+    while pending:
+        pm, s = pending.pop()
+        ops += [2, pm]
+    ops += [4]
+    return _assemble(wb, sb, pb, ms, kind, ws, ops)
+
+
 # ---------------------------------------------------------------- output walking
 
 def walk(inp, out):
@@ -209,12 +282,20 @@ def walk(inp, out):
         o += 1 + n
         return r
 
+    twin = False
     while i < len(inp):
         op = inp[i]
         if op == 1:
             yield (1, inp[i + 1:i + 3], out[o]); i += 3; o += 1
+            if twin:
+                yield ("twin1", [], (out[o - 1], out[o])); o += 1
         elif op == 2:
             yield (2, inp[i + 1:i + 2], out[o]); i += 2; o += 1
+            if twin:
+                yield ("twin2", [], (out[o - 1], out[o])); o += 1
+        elif op == 16:
+            twin = True
+            yield (16, [], out[o]); i += 1; o += 1
         elif op in (3, 14):
             yield (op, [], out[o]); i += 1; o += 1
         elif op in (4, 5, 6, 8):
@@ -240,6 +321,10 @@ def walk(inp, out):
             raise ValueError("bad op %r" % op)
     n = out[o]
     yield ("final", [], (out[o + 1:o + 1 + n], out[o + 1 + n]))
+    o += 2 + n
+    if twin:
+        n = out[o]
+        yield ("final_twin", [], (out[o + 1:o + 1 + n], out[o + 1 + n]))
 
 
 def models_of(inp):
@@ -359,7 +444,209 @@ def oracle_C04(inp, out):
     return None
 
 
-ORACLES = {"C01": oracle_C01, "C04": oracle_C04}
+def _bad(out):
+    return any(x in (-999999, -999998, -999997) for x in out)
+
+
+def ref_rans(wb, sb, entries):
+    """Independent arbitrary-precision reference of streaming rANS (published algorithm):
+    entries = [(P, cum, p)]; returns the words, least significant state word first."""
+    out, x = [], 0
+    B = 1 << wb
+    for P, cum, p in entries:
+        if x >= p << (sb - P):
+            out.append(x % B)
+            x //= B
+        x = (x // p) * (1 << P) + cum + x % p
+    while x:
+        out.append(x % B)
+        x //= B
+    return out
+
+
+def oracle_C06(inp, out):
+    """exported words == independent reference implementation (encode-only histories from new())"""
+    if _bad(out):
+        return "panic/abort/timeout"
+    ms, i = models_of(inp)
+    if inp[i] != 0:
+        return None
+    wb, sb = inp[0], inp[1]
+    entries = []
+    try:
+        for op, args, res in walk(inp, out):
+            if op == 1:
+                m, s = args
+                e = [x for x in ms[m][1] if x[0] == s]
+                if not e:
+                    return None
+                if res != 0:
+                    return "encode failed"
+                entries.append((ms[m][0], e[0][1], e[0][2]))
+            elif op in (4, 5):
+                ref = ref_rans(wb, sb, entries)
+                if res != ref:
+                    return "words %r differ from the reference rANS stream %r" % (res[:8], ref[:8])
+            elif op in (7, 12, 14, "final"):
+                pass
+            else:
+                return None
+    except (IndexError, ValueError):
+        return "malformed output"
+    return None
+
+
+def oracle_C08(inp, out):
+    """twin run: every result and the final coder equal those of the never-inspected twin; a
+    view shows exactly the words that exporting at that moment returns."""
+    if _bad(out):
+        return "panic/abort/timeout"
+    try:
+        last4 = None
+        fin = None
+        for op, args, res in walk(inp, out):
+            if op in ("twin1", "twin2") and res[0] != res[1]:
+                return "inspected coder and twin disagree on a result: %r" % (res,)
+            if op == 4:
+                last4 = res
+            elif op == 5:
+                if last4 is not None and res != last4:
+                    return "get_compressed view differs from iter_compressed at the same moment"
+                last4 = None
+            elif op in (1, 2, 3, 9, 10, 11, 13, 15):
+                last4 = None
+            if op == "final":
+                fin = res
+            if op == "final_twin" and res != fin:
+                return "final coder differs from the never-inspected twin"
+    except (IndexError, ValueError):
+        return "malformed output"
+    return None
+
+
+def oracle_C09(inp, out):
+    """impossible symbol -> ImpossibleSymbol error, raw parts unchanged; what was encoded before
+    still decodes (checked by the C01 predicate on the same history)."""
+    if _bad(out):
+        return "panic/abort/timeout"
+    ms, _ = models_of(inp)
+    try:
+        prev12 = None
+        expect_same = False
+        for op, args, res in walk(inp, out):
+            if op == 12:
+                if expect_same and res != prev12:
+                    return "failed encode changed the coder"
+                prev12 = res
+                expect_same = False
+            elif op == 1:
+                m, s = args
+                insup = any(e[0] == s for e in ms[m][1])
+                if not insup:
+                    if res != -1:
+                        return "out-of-support symbol %d was not rejected (result %d)" % (s, res)
+                    expect_same = prev12 is not None
+                else:
+                    prev12 = None
+            else:
+                if op != "final":
+                    prev12 = None
+    except (IndexError, ValueError):
+        return "malformed output"
+    return oracle_C01(inp, out)
+
+
+def oracle_C10(inp, out):
+    """decoding anything never panics/aborts/hangs; every decoded symbol is in the support"""
+    if _bad(out):
+        return "panic/abort/timeout while decoding arbitrary data"
+    ms, _ = models_of(inp)
+    try:
+        for op, args, res in walk(inp, out):
+            if op == 2 and not any(e[0] == res for e in ms[args[0]][1]):
+                return "decoded symbol %d outside the support" % res
+            if op == 13 and any(not any(e[0] == x for e in ms[args[0]][1]) for x in res):
+                return "decoded symbol outside the support"
+    except (IndexError, ValueError):
+        return "malformed output"
+    return None
+
+
+def oracle_C12(inp, out):
+    """exact integer form of the size bound, evaluated on the implementation's word counts:
+    B^(words-1) * prod p_i K_i <= 2^(SB-WB) * prod 2^P_i (K_i+1), and words <= n + SB/WB"""
+    if _bad(out):
+        return "panic/abort/timeout"
+    ms, i = models_of(inp)
+    if inp[i] != 0:
+        return None
+    wb, sb = inp[0], inp[1]
+    den, num, n = 1, 1, 0
+    try:
+        for op, args, res in walk(inp, out):
+            if op == 1:
+                m, s = args
+                e = [x for x in ms[m][1] if x[0] == s]
+                if not e or res != 0:
+                    return None
+                P, p = ms[m][0], e[0][2]
+                K = 1 << (sb - wb - P)
+                den *= p * K
+                num *= (1 << P) * (K + 1)
+                n += 1
+            elif op == 7:
+                nw = res[0]
+                if nw > n + (sb + wb - 1) // wb:
+                    return "%d words after %d symbols" % (nw, n)
+                if nw >= 1 and (1 << (wb * (nw - 1))) * den > (1 << (sb - wb)) * num:
+                    return "size bound violated: %d words after %d symbols" % (nw, n)
+            elif op in (4, 5, 12, 14, "final"):
+                pass
+            else:
+                return None
+    except (IndexError, ValueError):
+        return "malformed output"
+    return None
+
+
+def oracle_C18(inp, out):
+    """num_words / num_bits == length of the export at that moment; is_empty <=> nothing exported;
+    num_valid_bits of a from_binary coder == size of the data"""
+    if _bad(out):
+        return "panic/abort/timeout"
+    ms, i = models_of(inp)
+    wb = inp[0]
+    kind, nw0 = inp[i], inp[i + 1]
+    try:
+        sizes = None
+        touched = False
+        for op, args, res in walk(inp, out):
+            if op == "init_err":
+                return None
+            if op == 7:
+                sizes = res
+                if kind == 2 and not touched and res[2] != wb * nw0:
+                    return "num_valid_bits %d != %d" % (res[2], wb * nw0)
+                if res[1] != wb * res[0]:
+                    return "num_bits != WB * num_words"
+            elif op in (4, 5):
+                if sizes is not None:
+                    if sizes[0] != len(res):
+                        return "num_words %d but export has %d words" % (sizes[0], len(res))
+                    if (sizes[3] == 1) != (len(res) == 0):
+                        return "is_empty inconsistent with the export"
+            elif op in (6, 8, 12, 14):
+                pass
+            else:
+                sizes = None
+                touched = True
+    except (IndexError, ValueError):
+        return "malformed output"
+    return None
+
+
+ORACLES = {"C01": oracle_C01, "C04": oracle_C04, "C06": oracle_C06, "C08": oracle_C08,
+           "C09": oracle_C09, "C10": oracle_C10, "C12": oracle_C12, "C18": oracle_C18}
 
 
 def nontrivial_C04(inp, out):
@@ -374,6 +661,11 @@ def nontrivial(inp, out, prop=None):
     """at least one decode and a bulk that is non-empty at the end or a flush observable in sizes"""
     if prop == "C04":
         return nontrivial_C04(inp, out)
+    if prop in NONTRIVIAL:
+        try:
+            return NONTRIVIAL[prop](inp, out)
+        except Exception:
+            return False
     try:
         dec = False
         big = False
@@ -394,3 +686,20 @@ def describe(inp):
     ms, i = models_of(inp)
     return "ans W=%d S=%d PB=%d models=%s init_kind=%d ops=%d ints" % (
         inp[0], inp[1], inp[2], [(P, len(t)) for P, t in ms], inp[i], len(inp) - i)
+
+
+def _ops(inp, out):
+    return list(walk(inp, out))
+
+
+NONTRIVIAL = {
+    "C06": lambda inp, out: sum(1 for o, a, r in _ops(inp, out) if o == 1) >= 3 and any(
+        o == 4 and len(r) > inp[1] // inp[0] for o, a, r in _ops(inp, out)),
+    "C12": lambda inp, out: sum(1 for o, a, r in _ops(inp, out) if o == 1) >= 10,
+    "C18": lambda inp, out: any(x[0] == 7 and y[0] in (4, 5) for x, y in zip(_ops(inp, out), _ops(inp, out)[1:])),
+    "C08": lambda inp, out: any(o == 16 for o, a, r in _ops(inp, out)) and any(
+        x[0] in (4, 5, 6, 7, 8, 12, 14) and y[0] in (1, 2) for x, y in zip(_ops(inp, out), _ops(inp, out)[1:])),
+    "C09": lambda inp, out: any(o == 1 and r == -1 for o, a, r in _ops(inp, out)),
+    "C10": lambda inp, out: models_of(inp)[1] is not None and inp[models_of(inp)[1]] != 0 and any(
+        o in (2, 13) for o, a, r in _ops(inp, out)),
+}
